@@ -31,6 +31,9 @@ structure KState where
   tokens : List Bool := []                    -- live tokens
   wg : Runner.WG := Runner.WG.init 0
   wgWakes : Nat := 0
+  /-- wake-ups that went to the second waker (`g.poll2`), and which waker registered last (0 / 1) -/
+  wgWakesB : Nat := 0
+  wgReg : Nat := 0
 
 structure DState where
   cur : Cur := .none
@@ -618,6 +621,20 @@ def recordOwner (k : KState) (a : Nat) (acq : Runner.Acq) : KState :=
   | some lid => if k.owners.any (·.1 == lid) then k else { k with owners := k.owners ++ [(lid, a)] }
   | none => k
 
+/-- one poll of the shutdown future with waker `w` (0 = the first counting waker, 1 = a second one: `AtomicWaker::register`
+replaces the stored waker, so a later wake-up goes to whichever polled last) -/
+def gPollCore (k : KState) (w : Nat) : KState × String :=
+  let run (g : Runner.WG) (s : Runner.WStep) : Runner.WG := (Runner.wgStep g s).getD g
+  let g0 := k.wg
+  let g1 := run g0 .pollUpgrade
+  let g := if g1.pc == .upgraded then run (run (run g1 .pollRegister) .pollDropTemp) .pollWake else g1
+  let reg := if g1.pc == .upgraded then w else k.wgReg
+  let woke := g1.pc == .upgraded && g.wokenSinceRegister
+  let tot := if woke then k.wgWakes + 1 else k.wgWakes
+  let wb := if woke && reg == 1 then k.wgWakesB + 1 else k.wgWakesB
+  let res := if g.lastPoll == some true then "ready" else "pending"
+  ({ k with wg := g, wgWakes := tot, wgWakesB := wb, wgReg := reg }, s!"{res} wakes={tot} wb={wb}")
+
 def stepRunner (st : DState) (args : List String) : Option (DState × String) :=
   let k := st.k
   let fin (k : KState) (o : String) : Option (DState × String) := some ({ st with k := k }, o ++ kSuffix k)
@@ -649,16 +666,9 @@ def stepRunner (st : DState) (args : List String) : Option (DState × String) :=
     else some (st, "no-token")
   | ["g.new", n] => do
     let m ← natArg n
-    some ({ st with k := { k with wg := Runner.WG.init m, wgWakes := 0 } }, "ok")
-  | ["g.poll"] =>
-    let run (g : Runner.WG) (s : Runner.WStep) : Runner.WG := (Runner.wgStep g s).getD g
-    let g0 := k.wg
-    let g1 := run g0 .pollUpgrade
-    let g := if g1.pc == .upgraded then run (run (run g1 .pollRegister) .pollDropTemp) .pollWake else g1
-    let woke := g.wokenSinceRegister && !(g0.wokenSinceRegister && g0.pc == g.pc && false)
-    let w := if g1.pc == .upgraded && woke then k.wgWakes + 1 else k.wgWakes
-    let res := if g.lastPoll == some true then "ready" else "pending"
-    some ({ st with k := { k with wg := g, wgWakes := w } }, s!"{res} wakes={w}")
+    some ({ st with k := { k with wg := Runner.WG.init m, wgWakes := 0, wgWakesB := 0, wgReg := 0 } }, "ok")
+  | ["g.poll"] => let (k', o) := gPollCore k 0; some ({ st with k := k' }, o)
+  | ["g.poll2"] => let (k', o) := gPollCore k 1; some ({ st with k := k' }, o)
   | ["g.pollh", pt, t] => do
     -- a poll during which token `t` is dropped on "another thread" exactly at scheduling point `pt`
     -- (1 = after upgrade, 2 = after the waker registration), via the cfg hook in WaitGroupFuture::poll
@@ -670,7 +680,7 @@ def stepRunner (st : DState) (args : List String) : Option (DState × String) :=
     let g1 := run g0 .pollUpgrade
     if g1.pc != .upgraded then
       let res := if g1.lastPoll == some true then "ready" else "pending"
-      some ({ st with k := { k with wg := g1 } }, s!"{res} wakes={k.wgWakes} hook=not-reached")
+      some ({ st with k := { k with wg := g1 } }, s!"{res} wakes={k.wgWakes} wb={k.wgWakesB} hook=not-reached")
     else
       let g2 := if point == 1 then dropNow g1 else g1
       let g3 := run g2 .pollRegister
@@ -678,7 +688,7 @@ def stepRunner (st : DState) (args : List String) : Option (DState × String) :=
       let g5 := run (run g4 .pollDropTemp) .pollWake
       let w := if g5.wokenSinceRegister then k.wgWakes + 1 else k.wgWakes
       let res := if g5.lastPoll == some true then "ready" else "pending"
-      some ({ st with k := { k with wg := g5, wgWakes := w } }, s!"{res} wakes={w} hook=fired")
+      some ({ st with k := { k with wg := g5, wgWakes := w, wgReg := 0 } }, s!"{res} wakes={w} wb={k.wgWakesB} hook=fired")
   | ["g.drop", t] => do
     let i ← natArg t
     match Runner.wgStep k.wg (.tokenDec i) with
@@ -686,8 +696,10 @@ def stepRunner (st : DState) (args : List String) : Option (DState × String) :=
     | some g =>
       let before := g.wokenSinceRegister
       let g := (Runner.wgStep g (.tokenWake i)).getD g
-      let w := if g.wokenSinceRegister && !before then k.wgWakes + 1 else k.wgWakes
-      some ({ st with k := { k with wg := g, wgWakes := w } }, s!"ok wakes={w}")
+      let woke := g.wokenSinceRegister && !before
+      let w := if woke then k.wgWakes + 1 else k.wgWakes
+      let wb := if woke && k.wgReg == 1 then k.wgWakesB + 1 else k.wgWakesB
+      some ({ st with k := { k with wg := g, wgWakes := w, wgWakesB := wb } }, s!"ok wakes={w} wb={wb}")
   | _ => none
 
 def step (st : DState) (line : String) : DState × String :=
